@@ -782,10 +782,18 @@ func (bc *Blockchain) jumpToStateInternal(p uint32, stage stateChangeStage) erro
 			return fmt.Errorf("failed to get dao.Version: %w", err)
 		}
 		v.StoragePrefix = newPrefix
-		bc.dao.PutVersion(v)
+		// The new version and the stage marker have to reach the DB together,
+		// and the store can be flushed (by timer) between any two Puts to it.
+		cache := bc.dao.GetPrivate()
+		cache.PutVersion(v)
+		cache.Store.Put(jumpStageKey, []byte{byte(newStorageItemsAdded)})
+		_, err = cache.Persist()
+		if err != nil {
+			return fmt.Errorf("failed to persist %d stage of state jump: %w", stateJumpStarted, err)
+		}
+		bc.dao.Version = v
 		bc.persistent.Version = v
 
-		bc.dao.Store.Put(jumpStageKey, []byte{byte(newStorageItemsAdded)})
 		_, err = bc.dao.Store.Persist()
 		if err != nil {
 			return fmt.Errorf("failed to persist %d stage of state jump: %w", stateJumpStarted, err)
